@@ -237,10 +237,18 @@ func checkC02(e *core.Env) {
 	cs := stdCarriers()
 	defer cs.Close()
 
+	// (a fourth carrier for the status scripts: an HTTP carrier whose bodies arrive three bytes per read in both
+	// directions, as behind a re-chunking proxy)
+	pieces := NewHTTPServer(&Service{}, carrierOpt{}).InPieces(3)
+	defer pieces.Close()
+	statusCarriers := append(append([]*Carrier{}, cs.list...), pieces)
 	n := e.N(1200, 20000)
 	e.Cases("status", n, func(i int, r *rand.Rand) {
 		kind := Kind(i % 4)
-		for ci, c := range cs.list {
+		for ci, c := range statusCarriers {
+			if c == pieces && (i%3 != 0 || kind == Unary) {
+				continue // (streams only: unary calls have no frames, and F-C02-1 is recorded per carrier name)
+			}
 			rr := rand.New(rand.NewSource(r.Int63() + int64(ci)))
 			sc := genStatusScript(rr, kind, c.HTTP)
 			if rr.Intn(8) == 0 {
